@@ -15,3 +15,14 @@ package raftio
 //@ ensures result2 == nil && len(ents) == 0 ==> (forall i int :: 0 <= i && i < len(result0) ==> result0[i].Index == low + i && result0[i].Term == db.gterm[low + i])
 //@ ensures result2 == nil && len(ents) == 0 && len(result0) == 0 ==> result1 == size
 //@ ensures !errIs(result2, sentinel("internal/raft", "ErrCompacted"))
+
+// ---------------------------------------------------------------- persist-before-send typestate (C04)
+// gSaved: the batch of updates collected in the current step has been made durable by a
+// successful SaveRaftState; gSavedPtr/gSavedLen identify the slice that was saved.
+//@ ghost var gSaved bool
+//@ ghost var gSavedPtr int
+//@ ghost var gSavedLen int
+//@ iface (db ILogDB) SaveRaftState
+//@ ghostset gSaved := result == nil
+//@ ghostset gSavedPtr := ptr(updates)
+//@ ghostset gSavedLen := len(updates)
